@@ -122,6 +122,10 @@ class SymmetricBandToeplitzOperator(AbstractLinearOperator):
         x_padded = jnp.pad(x, (0, 2 * half_band_width), mode='constant')
         X_padded = jnp.fft.fft(x_padded)
         Y_padded = jnp.fft.ifft(X_padded * H).real
+        dtype = jnp.result_type(x.dtype, band_values.dtype)
+        if jnp.issubdtype(dtype, jnp.floating):
+            # the FFT of half-precision data is computed in single precision
+            Y_padded = Y_padded.astype(dtype)
         if half_band_width == 0:
             return Y_padded
         return Y_padded[half_band_width:-half_band_width]
@@ -169,7 +173,10 @@ class SymmetricBandToeplitzOperator(AbstractLinearOperator):
         x_padding_start = overlap
         x_padding_end = total_length - overlap - l
         x_padded = jnp.pad(x, (x_padding_start, x_padding_end), mode='constant')
-        y = jnp.zeros(l + x_padding_end, dtype=jnp.result_type(x.dtype, band_values.dtype))
+        dtype = jnp.result_type(x.dtype, band_values.dtype)
+        # the FFT of half-precision data is computed in single precision: accumulate in the
+        # precision of the FFT and return the data dtype
+        y = jnp.zeros(l + x_padding_end, dtype=jnp.promote_types(dtype, jnp.float32))
 
         def func(iblock, y):  # type: ignore[no-untyped-def]
             position = iblock * step_size
@@ -181,8 +188,8 @@ class SymmetricBandToeplitzOperator(AbstractLinearOperator):
             )
             return y
 
-        y = lax.fori_loop(0, nblock, func, y)
-        return y[half_band_width : half_band_width + l]
+        y = lax.fori_loop(0, nblock, func, y)[half_band_width : half_band_width + l]
+        return y.astype(dtype) if jnp.issubdtype(dtype, jnp.floating) else y
 
     def _get_kernel(self, band_values: Array) -> Array:
         """[4, 3, 2, 1] -> [1, 2, 3, 4, 3, 2, 1]"""
